@@ -30,6 +30,8 @@
 #include <stdexcept>
 #include <variant>
 #include <cassert>
+#include <cstdio>
+#include <cstdlib>
 #include <cstring>
 
 using namespace UTAP;
@@ -1095,6 +1097,22 @@ static inline std::ostream& embrace(std::ostream& os, bool old, const expression
         return expr.print(os, old);
 }
 
+/** Prints a floating point constant with the fewest digits that read back as the same value,
+ *  always in the form of a floating point literal. */
+static std::ostream& print_double(std::ostream& os, double value)
+{
+    char buffer[40];
+    for (int digits : {15, 16, 17}) {
+        std::snprintf(buffer, sizeof(buffer), "%.*g", digits, value);
+        if (std::strtod(buffer, nullptr) == value)
+            break;
+    }
+    os << buffer;
+    if (std::strpbrk(buffer, ".eEni") == nullptr)
+        os << ".0";  // "1" would read back as an integer
+    return os;
+}
+
 /** Prints "quantifier(name:type) " in the syntax the parser reads. */
 static std::ostream& print_binder(std::ostream& os, const char* quantifier, const symbol_t& symbol)
 {
@@ -1132,7 +1150,8 @@ std::ostream& expression_t::print(std::ostream& os, bool old) const
         if (get(0).get_value() != -1)
             get(0).print(os << "; ", old);
         os << (flag ? "]([] " : "](<> ");
-        get(3).print(os, old) << ") >= " << get(4).get_double_value();
+        get(3).print(os, old) << ") >= ";
+        print_double(os, get(4).get_double_value());
         break;
 
     case PROBA_BOX: flag = true; [[fallthrough]];
@@ -1293,7 +1312,7 @@ std::ostream& expression_t::print(std::ostream& os, bool old) const
     case CONSTANT:
 
         if (get_type().is(Constants::DOUBLE)) {
-            os << get_double_value();
+            print_double(os, get_double_value());
         } else if (get_type().is_string()) {
             os << get_string_value();
         } else if (get_type().is_integer()) {
